@@ -7,6 +7,7 @@ import (
 	"go/types"
 	"sort"
 	"strings"
+	"sync"
 
 	"lndlint/internal/flow"
 )
@@ -93,8 +94,30 @@ func Text(n ast.Node) string {
 // CallPred selects calls.
 type CallPred func(id string, call *ast.CallExpr) bool
 
+var (
+	queriedMu      sync.Mutex
+	queriedCallees = map[string]bool{}
+)
+
+// QueriedCallees returns the callee IDs that rules asked for through CalleeIs
+// so far (the functions whose call sites some rule inspects).
+func QueriedCallees() map[string]bool {
+	queriedMu.Lock()
+	defer queriedMu.Unlock()
+	out := map[string]bool{}
+	for k := range queriedCallees {
+		out[k] = true
+	}
+	return out
+}
+
 // CalleeIs matches calls whose resolved callee has one of the IDs.
 func CalleeIs(ids ...string) CallPred {
+	queriedMu.Lock()
+	for _, id := range ids {
+		queriedCallees[id] = true
+	}
+	queriedMu.Unlock()
 	return func(id string, _ *ast.CallExpr) bool {
 		for _, w := range ids {
 			if id == w {
